@@ -278,6 +278,8 @@ def call_value(ex, node, st, fv: SV):
 def call_class(ex, node, st, name: str):
     mod = T.classes().repo_module.get(name)
     real = T.classes().real_name.get(name, name)
+    if name in getattr(ex.contract, "functional_classes", ()):
+        return functional_instance(ex, node, st, name, mod, real)
     model = ex.registry.class_model(name)
     if model is not None:
         return model(ex, node, st)
@@ -1199,3 +1201,90 @@ def m_update(ex, node, st, rt):
 
 
 CONTAINER_METHODS["update"] = m_update
+
+
+def b_frozenset(ex, node, st):
+    """frozenset(a list): a fresh frozenset whose members are the items; TypeError if an item is unhashable"""
+    if not node.args:
+        o = ex.new_dict(st, z3.K(Val, False), T.NOGET, z3.IntVal(0), K("frozenset"), "frozenset")
+        return [(st, "val", sv_val(o))]
+    outs = []
+    for s, k, vs in ex.eval_many(node.args, st):
+        if k == "exc":
+            outs.append((s, k, vs))
+            continue
+        t = as_val(vs[0])
+        if ex.container_kind(node.args[0]) not in ("list", "tuple", "seq"):
+            raise Unsupported("frozenset() of a non-sequence")
+        isseq = z3.Or(isinst(t, "list"), isinst(t, "tuple"))
+        bad = s.fork().assume(z3.Not(isseq))
+        if ex.feasible(bad):
+            outs.append(_exc(ex, bad, "TypeError"))
+        s.assume(isseq)
+        h = Heap(ex, s)
+        j = z3.Int("fj")
+        x = z3.Const("fx", Val)
+        n, items = h.llen(t), h.arr("lget")[t]
+        unh = s.fork().assume(z3.Exists([j], z3.And(j >= 0, j < n, z3.Not(T.hashable(items[j])))))
+        if ex.feasible(unh):
+            outs.append(_exc(ex, unh, "TypeError"))
+        s.assume(T.forall([j], z3.Implies(z3.And(j >= 0, j < n), T.hashable(items[j])), patterns=[items[j]]))
+        has = ex.fresh("fsh", T.ArrVB)
+        s.assume(T.forall([j], z3.Implies(z3.And(j >= 0, j < n), has[items[j]]), patterns=[items[j]]))
+        s.assume(T.forall([x], z3.Implies(has[x], z3.Exists([j], z3.And(j >= 0, j < n, x == items[j]))), patterns=[has[x]]))
+        ln = ex.fresh("fsl", T.I)
+        s.assume(ln >= 0, ln <= n)
+        o = ex.new_dict(s, has, T.NOGET, ln, K("frozenset"), "frozenset")
+        outs.append((s, "val", sv_val(o)))
+    return outs
+
+
+BUILTINS["frozenset"] = b_frozenset
+
+
+def functional_instance(ex, node, st, name, mod, real):
+    """K(a, b, ...) for an immutable node dataclass, modelled as the value mk_K(a, b, ...) whose
+    attributes are its arguments (it exists "eternally": its attributes are read in the entry
+    heap, so the refinement axioms of its class apply to it).  Used by the Layer-2 contracts;
+    method nodes are never mutated after construction (RecMethod.method excepted, not built here)."""
+    fields = source.dataclass_fields(mod, real)
+    outs = []
+    for s, k, vs in _args(ex, node, st):
+        if k == "exc":
+            outs.append((s, k, vs))
+            continue
+        pos = vs[: len(node.args)]
+        kw = {kw.arg: v for kw, v in zip(node.keywords, vs[len(node.args) :])}
+        vals = []
+        for i, fname in enumerate(fields):
+            if i < len(pos):
+                vals.append(ex.val_of(pos[i]))
+            elif fname in kw:
+                vals.append(ex.val_of(kw[fname]))
+            else:
+                raise Unsupported(f"functional instance of {name}: missing field {fname}")
+        f = z3.Function(f"mk_{name}", *([Val] * len(fields)), Val)
+        t = f(*vals) if fields else z3.Const(f"mk_{name}", Val)
+        s.assume(cls(t) == K(name), T.alloc0[t])
+        for fname, v in zip(fields, vals):
+            ex.touch_heap(T.attr_heap(fname))
+            s.assume(T.heap0(T.attr_heap(fname))[t] == v)
+        outs.append((s, "val", sv_val(t)))
+    return outs
+
+
+issub_rt = z3.Function("issub_rt", Val, Val, T.B)  # issubclass(c, k) for run-time classes (also ABCs)
+
+
+def b_issubclass(ex, node, st):
+    outs = []
+    for s, k, vs in ex.eval_many(node.args, st):
+        if k == "exc":
+            outs.append((s, k, vs))
+            continue
+        a, b = vs
+        outs.append((s, "val", sv_bool(issub_rt(ex.val_of(a), ex.val_of(b)))))
+    return outs
+
+
+BUILTINS["issubclass"] = b_issubclass
